@@ -332,6 +332,86 @@ func runC10Gated(c kit.Case, n int) (v kit.Verdict) {
 	return v
 }
 
+// runC10Bulk executes a WheelBulkGen behaviour: every model key is a block of `mult` real timers
+// that are set / moved / removed together, so that the wheel's key index goes through more
+// than 10 000 deletions.  Per tick the fired pairs must be exactly mult copies of each block
+// the specification fires.
+func runC10Bulk(c kit.Case, n, mult int) (v kit.Verdict) {
+	v = kit.Verdict{Case: c.Index, OK: true}
+	cw := &c10wheel{tk: newVTicker(), n: n}
+	cw.base = runtime.NumGoroutine()
+	counts := map[string]int{}
+	w, err := newTimingWheelWithClock(c10Interval, n, func(k, val any) {
+		blk := k.(string)
+		blk = blk[:strings.IndexByte(blk, '#')]
+		cw.mu.Lock()
+		counts[fmt.Sprintf("%s=%d", blk, val.(int))]++
+		cw.mu.Unlock()
+	}, cw.tk)
+	if err != nil {
+		return kit.Verdict{Case: c.Index, Infra: true, Msg: err.Error()}
+	}
+	cw.w = w
+	cw.base++
+	defer func() {
+		cw.w.Stop()
+		<-cw.tk.stopped
+		kit.WaitGoroutines(cw.base-1, 10*time.Second)
+	}()
+	T := 0
+	var hist []string
+	for i, st := range c.Steps {
+		op := kit.Str(st["op"])
+		lo, hi, d := kit.Num(st["lo"]), kit.Num(st["hi"]), time.Duration(kit.Num(st["d"]))*c10Interval
+		for b := lo; b <= hi && op != "ticks"; b++ {
+			for j := 0; j < mult; j++ {
+				key := fmt.Sprintf("%d#%d", b, j)
+				var e error
+				switch op {
+				case "setr":
+					e = cw.w.SetTimer(key, kit.Num(st["v"]), d)
+				case "mover":
+					e = cw.w.MoveTimer(key, d)
+				case "remover":
+					e = cw.w.RemoveTimer(key)
+				}
+				if e != nil {
+					return kit.Verdict{Case: c.Index, Infra: true, Msg: op + ": " + e.Error()}
+				}
+			}
+		}
+		hist = append(hist, fmt.Sprintf("%s[%d..%d]", op, lo, hi))
+		for j, want := range kit.List(st["pre"]) {
+			select {
+			case cw.tk.c <- time.Time{}:
+			case <-time.After(10 * time.Second):
+				return kit.Verdict{Case: c.Index, Infra: true, Msg: "tick not accepted by the run loop"}
+			}
+			if err := cw.settle(); err != nil {
+				return kit.Verdict{Case: c.Index, Infra: true, Msg: err.Error()}
+			}
+			T++
+			v.Steps++
+			cw.mu.Lock()
+			got := counts
+			counts = map[string]int{}
+			cw.mu.Unlock()
+			wantc := map[string]int{}
+			for _, e := range kit.List(want) {
+				m := e.(map[string]any)
+				wantc[fmt.Sprintf("%d=%d", kit.Num(m["k"]), kit.Num(m["v"]))] = mult
+			}
+			if kit.Canon(got) != kit.Canon(wantc) {
+				v.OK, v.Step, v.Key = false, i, "C10:bulk:fired-set"
+				v.Msg = fmt.Sprintf("N=%d blocks of %d timers, history %v, tick #%d (T=%d): executed (block=value: count) %s, specification %s",
+					n, mult, hist, j+1, T, kit.Canon(got), kit.Canon(wantc))
+				return v
+			}
+		}
+	}
+	return v
+}
+
 func TestVerifC10(t *testing.T) {
 	rep, err := kit.NewReporter(kit.Env("VERIF_OUT", ""))
 	if err != nil {
@@ -340,8 +420,11 @@ func TestVerifC10(t *testing.T) {
 	defer rep.Close()
 	n := kit.EnvInt("VERIF_SLOTS", 3)
 	gated := kit.EnvInt("VERIF_GATED", 0) == 1
+	mult := kit.EnvInt("VERIF_BULK", 0)
 	if err := kit.StreamCases(kit.Env("VERIF_CASES", ""), func(c kit.Case) error {
-		if gated {
+		if mult > 0 {
+			rep.Put(runC10Bulk(c, n, mult))
+		} else if gated {
 			rep.Put(runC10Gated(c, n))
 		} else {
 			rep.Put(runC10Case(c, n))
